@@ -28,7 +28,13 @@ type c07Construct struct {
 	bare bool // bare if: condition without ${{ }}
 }
 
+// c07AtMarker as the offset of a construct: the diagnostic stands at the ${{ of the placeholder, not
+// at a token inside it (object / array / null evaluated in a template).
+const c07AtMarker = -1000
+
 var c07Constructs = []c07Construct{
+	{"evaluated-object", "name", "github.event", c07AtMarker, regexp.MustCompile(`^object, array, and null values should not be evaluated in template`), false},
+	{"evaluated-null-in-run", "run", "null", c07AtMarker, regexp.MustCompile(`^object, array, and null values should not be evaluated in template`), false},
 	{"lexer-error", "run", "a $ b", 2, regexp.MustCompile(`^got unexpected character '\$'`), false},
 	{"parser-leftover", "run", "github b", 7, regexp.MustCompile(`^parser did not reach end of input`), false},
 	{"undefined-variable-first", "run", "nosuch.x", 0, regexp.MustCompile(`^undefined variable "nosuch"`), false},
@@ -116,6 +122,9 @@ func c07StepCase(con *c07Construct, extra, above, flow, quote, prefix, preceding
 		}
 		content += "${{" + strings.Repeat(" ", spaces)
 		tokOff = len(content) + con.off
+		if con.off == c07AtMarker {
+			tokOff = len(content) - len("${{") - spaces
+		}
 		content += con.expr + " }}"
 	}
 	if strings.Contains(content, "'") && quote == 1 {
@@ -198,7 +207,7 @@ func c07Run(r *vReport, cs *c07Case, class string) {
 func TestVerifC07(t *testing.T) {
 	r := vNewReport("C07")
 	defer r.Write(t)
-	r.Extra["rule"] = "18 expression constructs (lexer, parser, semantic first/inner token, untrusted input, availability, bare if:) x extra indentation 0-4 x lines above 0-3 x block/flow x plain/single/double/after an anchor/after a tag/after both in either order/with several blanks between them x prefix 0-5 x preceding placeholders 0-2 x spaces after ${{ 0-3; every non-exempt scalar position of the 4 seeds x plain/single/double x 0-3 spaces with an undefined variable; 26 per-rule templates (ids, env names, permission scopes, runner labels, needs, events, activity types, cron, matrix duplicates / exclude, action inputs and refs, timeout, credentials, if-cond, workflow call, dispatch default, input type, unexpected / duplicate keys) x quoting x lines above with the marker's position as expectation; key constructs (unexpected, duplicate) and value constructs (enum, shell name, glob character at index 0-4) x indentation x lines above x style x quoting; plus line/column range of every non-YAML-level diagnostic over positions x fragments of the workflow seeds. class = construct x style x quoting; all non-trivial"
+	r.Extra["rule"] = "20 expression constructs (lexer, parser, semantic first/inner token, untrusted input, availability, object / null evaluated in a template - reported at the ${{ -, bare if:) x extra indentation 0-4 x lines above 0-3 x block/flow x plain/single/double/after an anchor/after a tag/after both in either order/with several blanks between them x prefix 0-5 x preceding placeholders 0-2 x spaces after ${{ 0-3; every non-exempt scalar position of the 4 seeds x plain/single/double x 0-3 spaces with an undefined variable; 26 per-rule templates (ids, env names, permission scopes, runner labels, needs, events, activity types, cron, matrix duplicates / exclude, action inputs and refs, timeout, credentials, if-cond, workflow call, dispatch default, input type, unexpected / duplicate keys) x quoting x lines above with the marker's position as expectation; key constructs (unexpected, duplicate) and value constructs (enum, shell name, glob character at index 0-4) x indentation x lines above x style x quoting; plus line/column range of every non-YAML-level diagnostic over positions x fragments of the workflow seeds. class = construct x style x quoting; all non-trivial"
 	r.Extra["assumptions"] = []string{"one-line ASCII scalars without escape sequences only (as the statement says)"}
 	if raw := vReplayInput(); raw != nil {
 		var cs c07Case
